@@ -87,20 +87,12 @@ pub fn label_text(e: &Edge) -> String {
 pub fn known_trigger(kind: &str, flavour: &str, cap: usize, ov: &[i64], e: &Edge) -> Option<&'static str> {
     match kind {
         "slotmap" => {
-            if matches!(e.a.as_str(), "insert_at" | "remove") && e.i[0] == cap as i64 {
-                return Some("slotmap:key-eq-capacity");
-            }
-            if matches!(e.a.as_str(), "get" | "contains") && e.i[0] >= cap as i64 {
-                return Some("slotmap:key-eq-capacity");
-            }
+            let _ = (cap, ov, e);
             None
         }
         "string" => {
             let len = ov[1];
-            if e.a == "remove" && e.i[0] == len {
-                return Some("string:remove-at-len");
-            }
-            if flavour == "inline" && len == cap as i64 {
+            if (flavour == "inline" || flavour == "semantic") && len == cap as i64 {
                 if (e.a == "strip_prefix" || e.a == "strip_suffix") && e.s.is_empty() {
                     return Some("string:static-full-zero-range");
                 }
